@@ -25,7 +25,7 @@ pub fn c01(rep: &mut Report, cfg: &Cfg) {
     let mut rng = cfg.rng(check);
     let mut lock = Lock::new(Some(0));
     lock.full_every = 512;
-    let judge = Judge::FULL;
+    let judge = Judge::FULL.only(super::common::is_mov);
     let forms = gen::forms_of(Group::Mov);
     let per_form = cfg.share(cfg.n(12_000, 600_000));
     for pat in &forms {
@@ -91,7 +91,7 @@ pub fn c04(rep: &mut Report, cfg: &Cfg) {
     let mut rng = cfg.rng(check);
     let mut lock = Lock::new(Some(0));
     lock.full_every = 512;
-    let judge = Judge::FULL;
+    let judge = Judge::FULL.only(super::common::is_bit);
     let forms = gen::forms_of(Group::Bit);
     let mut work = 0u64;
     let reps = cfg.n(1, 6);
@@ -200,7 +200,7 @@ fn run_bit(rep: &mut Report, check: &str, lock: &mut Lock, c: &Case, judge: &Jud
 fn c08_judge() -> Judge {
     // C08 judges which bytes were accessed (memory diffs, loaded value through tagged memory ->
     // destination register) and the address-register update; flags belong to C01-C04.
-    Judge { outcome: true, regs: true, ccr: false, pc: true, mem: true, cost: false, panics: false }
+    Judge { outcome: true, regs: true, ccr: false, pc: true, mem: true, cost: false, panics: false, only: None }
 }
 
 pub fn c08(rep: &mut Report, cfg: &Cfg) {
